@@ -869,7 +869,7 @@ def general(tier, seed, pid, modes=("debug",)):
     return [(m, corpus(m, pid) + general_cases(tier, seed, m)) for m in modes]
 
 PROPS = {
-    "C01": {"modules": ["MiniVecProof.Props.C10Provided", "MiniVecProof.Props.C01", "MiniVecProof.Props.C01Histories", "MiniVecProof.Props.C01Loops", "MiniVecProof.Props.C01Ctors", "MiniVecProof.Props.C01Append", "MiniVecProof.Props.C01SplitOff", "MiniVecProof.Props.C01MacroRepeat", "MiniVecProof.Props.C01ExtendWithin", "MiniVecProof.Props.C17RemoveItem", "MiniVecProof.Props.C12CloneFrom", "MiniVecProof.Props.C12IntoIter", "MiniVecProof.Props.C10DrainFilter", "MiniVecProof.Props.C10Splice"],
+    "C01": {"modules": ["MiniVecProof.Props.C10Provided", "MiniVecProof.Props.C01", "MiniVecProof.Props.C01Histories", "MiniVecProof.Props.C01Loops", "MiniVecProof.Props.C01Ctors", "MiniVecProof.Props.C01Append", "MiniVecProof.Props.C01SplitOff", "MiniVecProof.Props.C01MacroRepeat", "MiniVecProof.Props.C01ExtendWithin", "MiniVecProof.Props.C17RemoveItem", "MiniVecProof.Props.C12CloneFrom", "MiniVecProof.Props.C12IntoIter", "MiniVecProof.Props.C10DrainFilter", "MiniVecProof.Props.C10Splice", "MiniVecProof.Props.C10World"],
             "cases": lambda tier, seed: [(m, c + views_cases(m) + panic_prefix_cases(m) + clone_glue_cases(m) + lying_hint_cases(m)) for m, c in general(tier, seed, "C01")] + [("release", boundary_grid("release") + views_cases("release"))],
             "owned_oracles": ["O vec-mismatch", "O view-mismatch", "O ledger duplicate-id", "O ledger bitwise-copy", "panic-prefix", "macro-evals", "X signal"], "owned_diffs": ["result", "contents", "panic", "crash"],
             "partial_missing": ["refinement to Vec semantics proved for every history over push, pop, insert, remove, swap_remove, truncate, clear, retain (any predicate), reserve, reserve_exact, shrink_to, shrink_to_fit (C01_refines_vec_partial); separately proved value-for-value: extend_from_slice, resize, resize_with (any generator) (C01Loops), From<&[T]> (C01_from_slice_partial), clone, extend/collect, dedup*, Drain, IntoIter, DrainFilter (any predicate); append, split_off, drain_vec, mini_vec![a, b, c], splice (any replacement iterator), extend_from_within, remove_item (any equality), mini_vec![e; n], clone_from; C01_histories_partial composes them over EVERY history of 25 operation kinds incl. the three borrowing iterators created, stepped and dropped; From<&str>, Cow, the Borrow/AsRef/Deref/Index views are tied to Vec and to the model by the correspondence only (views oracle)"]},
@@ -877,11 +877,11 @@ PROPS = {
             "cases": lambda tier, seed: [(m, c + raw_natural_cases(m) + serde_error_cases(m)) for m, c in general(tier, seed, "C02")],
             "owned_oracles": ["O ledger", "O view-mismatch", "X signal"], "owned_diffs": ["own", "crash"],
             "partial_missing": ["exactly-once destruction and conservation proved for every completed history over the 12 operations of POp (incl. retain with any predicate) followed by Drop (C02_exactly_once_partial, C02_no_double_drop, C02_no_leak); for Drain and IntoIter dropped after any interleaving of steps: yielded front ++ destroyed ++ yielded back reversed = the selected range (specSteps_partition + C10_drain_partial / C10_into_iter_partial); DrainFilter: yielded ++ destroyed = accepted, vector = rejected (C10_drain_filter_partial); C02_histories_partial / C02_histories_into_iter_partial: EVERY completed history over the base operations, extend (any source), dedup / dedup_by / dedup_by_key (any relation), drain(range) with any steps then drop, drain_filter(pred) with any steps then drop, ended by dropping the vector or by into_iter() with any steps then drop: one destructor event per element of `dropped`, and dropped ++ everything yielded or returned is a rearrangement of the starting contents ++ everything handed in; C02_every_history_partial (Props/C02All, C02Splice): the same for EVERY completed history over all 25 operation kinds of HOp, by destructor events: the cloning operations (extend_from_slice, resize, extend_from_within: the clones are new elements handed to the vector), resize_with, remove_item and splice (create, any steps, drop: exactly the unyielded part of the range is destroyed; the temporary that collects the rest of the replacement is emptied before it is dropped) included; the multi-register operations and serde by correspondence + per-element ledger"]},
-    "C03": {"modules": ["MiniVecProof.Props.C01", "MiniVecProof.Proofs.MemDrop", "MiniVecProof.Props.C09", "MiniVecProof.Props.C03World"],
+    "C03": {"modules": ["MiniVecProof.Props.C01", "MiniVecProof.Proofs.MemDrop", "MiniVecProof.Props.C09", "MiniVecProof.Props.C03World", "MiniVecProof.Props.C10World"],
             "cases": lambda tier, seed: [(m, c + huge_cases(m) + raw_natural_cases(m) + extend_ref_cases(m) + lying_hint_cases(m) + grow_with_tail_cases(m) + mixed_alignment_cases(m)) for m, c in general(tier, seed, "C03", modes=("debug", "release"))],
             "owned_oracles": ["O alloc", "O cap"], "owned_diffs": ["alloc", "ub", "crash"],
             "partial_missing": ["layout quoting proved for grow (every caller), Drop and IntoIter::drop; C03_world_all_histories: for EVERY finite sequence of protocol operations of the register machine on any number of registers (every constructor of Op: all four iterators alive across other operations, two-vector operations, serde, raw round trips, spare capacity, count) every register stays well formed and no step is an illegal access, a failed assertion or a hang (non-panicking callbacks); the theorem is about the model, tied to the code by the correspondence + checking allocator"]},
-    "C04": {"modules": ["MiniVecProof.Props.C10Provided", "MiniVecProof.Props.C04", "MiniVecProof.Props.C04Drain", "MiniVecProof.Props.C04IntoIter", "MiniVecProof.Props.C04DrainFilter", "MiniVecProof.Props.C04Loops", "MiniVecProof.Props.C04Dedup", "MiniVecProof.Props.C04MacroRepeat", "MiniVecProof.Props.C04Splice", "MiniVecProof.Props.C04Histories", "MiniVecProof.Props.C01"],
+    "C04": {"modules": ["MiniVecProof.Props.C10Provided", "MiniVecProof.Props.C04", "MiniVecProof.Props.C04Drain", "MiniVecProof.Props.C04IntoIter", "MiniVecProof.Props.C04DrainFilter", "MiniVecProof.Props.C04Loops", "MiniVecProof.Props.C04Dedup", "MiniVecProof.Props.C04MacroRepeat", "MiniVecProof.Props.C04Splice", "MiniVecProof.Props.C04Histories", "MiniVecProof.Props.C04Serde", "MiniVecProof.Props.C04World", "MiniVecProof.Props.C01"],
             "cases": lambda tier, seed: [("debug", corpus("debug", "C04") + panic_sweep(tier, seed, "debug") + panic_prefix_cases("debug"))],
             "owned_oracles": ["O ledger", "O alloc", "X signal", "panic-prefix"], "owned_diffs": ["own", "contents", "result", "panic", "alloc", "ub", "crash"],
             "partial_missing": ["proved under an ARBITRARY panic oracle (any subset of the callbacks may panic): truncate, clear (C04_truncate_partial, C04_clear_partial: length cut before the first destructor, every doomed element destroyed once unless the double-panic abort) and retain with a panicking predicate or destructor (C04_retain_partial: what is exposed plus what was destroyed is a rearrangement of the contents); drop_in_place semantics dropAll_any; the drop guard of Drain (C04_drain_drop_partial: a destructor panic while the Drain is dropped — the guard destroys the rest and moves the tail back, a second panic is the abort) and Drop for IntoIter (C04_into_iter_drop_partial); DrainFilter::next with a panicking predicate at any point of the scan (C04_drain_filter_partial: the guard moves the unscanned rest back, the vector exposes kept ++ unscanned and nothing was destroyed); dropping a DrainFilter with any predicate call or destructor panicking (C04_drain_filter_drop_partial: never an abort, every unscanned element exposed or destroyed exactly once); extend / extend_from_slice / resize / resize_with with the callback panicking at any call (C04Loops: the elements produced so far stay), Clone for MiniVec (C12_clone_any: source untouched; C12_clone_from_any: self untouched or the new clones in place); collect and From<&[T]> (C04_collect_any, C04_from_slice_any: the partial result is unwound, the caller's vector untouched), dedup / dedup_by / dedup_by_key with the comparison, predicate or key function panicking at any call (C04_dedup_partial: only swaps, so every element is still there exactly once); mini_vec![e; n] (C04_macro_repeat_any), the Splice drop guard at any point of the iterator's consumption (C04_splice_drop_partial: the destructors of the unyielded elements, the replacement's next() and everything the guard calls while a panic unwinds may panic; C04_splice_drop_default_partial on a never-allocated vector), remove_item (PartialEq panics) and extend_from_within (Clone panics; its guard publishes the clones made so far); C04_histories_partial: EVERY history over the 25 operation kinds of HOp with ANY arguments under ANY panic oracle runs to its end or stops at the first operation that does not return, and unless the process aborted (allocation failure, second panic while unwinding) the vector is well formed, so the history can go on; the multi-register operations and serde under panics are decided by the exhaustive crash-point sweep of the correspondence"]},
@@ -907,7 +907,7 @@ PROPS = {
         "owned_diffs": ["result", "panic", "alloc", "cap", "crash", "ub"],
         "partial_missing": ["lifting of the generated-code theorems through the hand model for resize / resize_with / mini_vec![x; n] / extend_from_slice is by correspondence only"],
     },
-    "C10": {"modules": ["MiniVecProof.Props.C10Provided", "MiniVecProof.Props.C10", "MiniVecProof.Props.C10IntoIter", "MiniVecProof.Props.C10DrainFilter", "MiniVecProof.Props.C10Splice", "MiniVecProof.Props.C06"],
+    "C10": {"modules": ["MiniVecProof.Props.C10Provided", "MiniVecProof.Props.C10", "MiniVecProof.Props.C10IntoIter", "MiniVecProof.Props.C10DrainFilter", "MiniVecProof.Props.C10Splice", "MiniVecProof.Props.C10World", "MiniVecProof.Props.C06"],
             "cases": lambda tier, seed: [("debug", corpus("debug", "C10") + iterator_cases(tier, seed, "debug") + lying_hint_cases("debug") + iter_drop_panic_cases("debug") + soak(tier, seed, "debug", "C10", n=12000)),
                                          ("release", boundary_grid("release"))],
             "owned_oracles": ["O vec-mismatch", "O view-mismatch", "iter-drop-outcome", "X signal"], "owned_diffs": ["result", "contents", "ub", "crash", "panic"],
